@@ -106,9 +106,17 @@ pub fn step_once(real: &mut Real, m0: &M) -> Outcome {
     let Real { iset, icache } = real;
     let r = guarded(|| {
         let mut st = build(m0);
+        // deterministic environment: node ids start at a known value, EXEC.CMD's pause is virtual
+        pushr::push::graph::verif_set_node_counter(crate::refmodel::NEXT_NODE_ID);
+        pushr::push::verif::install_clock(0);
+        // RNG answers come from the default script (a fixed Weyl sequence): every execution is replayable
+        pushr::push::verif::install_script(vec![], 100_000);
         PushInterpreter::step(&mut st, iset, icache);
         observe(&st)
     });
+    pushr::push::verif::clear_script();
+    pushr::push::verif::clear_clock();
+    reap_children();
     match r {
         Ok(m) => Outcome::Ok(m),
         Err(p) => Outcome::Panic(p),
@@ -232,6 +240,8 @@ pub struct Ctx {
     pub nshards: usize,
     /// replay mode: run only this case (and print everything about it)
     pub only: Option<u64>,
+    /// resume after an aborted case: ids below this are skipped
+    pub from: u64,
     pub next_id: u64,
     pub cases: u64,
     pub states: u64,
@@ -263,6 +273,7 @@ impl Ctx {
             shard: 0,
             nshards: 1,
             only: None,
+            from: 0,
             next_id: 0,
             cases: 0,
             states: 0,
@@ -298,7 +309,7 @@ impl Ctx {
                 }
             }
             None => {
-                if (id as usize) % self.nshards == self.shard {
+                if (id as usize) % self.nshards == self.shard && id >= self.from {
                     Some(id)
                 } else {
                     None
@@ -314,8 +325,8 @@ impl Ctx {
             use std::io::{Seek, SeekFrom};
             let _ = f.seek(SeekFrom::Start(0));
             let mut line = format!("{} {}", id, descr);
-            line.truncate(3900);
-            while line.len() < 3900 {
+            line.truncate(120);
+            while line.len() < 120 {
                 line.push(' ');
             }
             line.push('\n');
@@ -448,5 +459,18 @@ pub fn emit_result(line: &str) {
             let _ = f.flush();
         }
         None => println!("{}", line),
+    }
+}
+
+extern "C" {
+    fn waitpid(pid: i32, status: *mut i32, options: i32) -> i32;
+}
+/// EXEC.CMD never waits for the processes it spawns; collect them so that a long
+/// sweep does not accumulate zombies.
+pub fn reap_children() {
+    unsafe {
+        let mut st: i32 = 0;
+        // WNOHANG = 1
+        while waitpid(-1, &mut st as *mut i32, 1) > 0 {}
     }
 }
